@@ -57,7 +57,9 @@ Unit(ty_, pos_, min_, max_, emin_, emax_, mult_) ==
                                         /\ (ty_ = "integer" => IsIntegral(grid[i]))}
       p        == IF pos_ = "optdefault" /\ okv = {} THEN "opt" ELSE pos_
       dflt     == IF okv = {} THEN JNull ELSE grid[CHOOSE i \in okv : \A j \in okv : i <= j]
+  \* a NAMED number definition with multipleOf: `math.Mod(plain, ...)` on a defined type does not compile
   IN PosUnit("C05", p, leaf, vals, dflt)
+     @@ [nobuild |-> IF ty_ = "number" /\ mult_.on /\ PosViaDef(p) THEN <<"NamedFloatMultipleOfNoCompile">> ELSE <<>>]
 
 u == Unit(ty, pos, b[1], b[2], b[3], b[4], mult)
 Set == b # <<>>
